@@ -415,6 +415,89 @@ theorem initSubs_leave_succeeds (s : Subs) (base : Nat) (m : Mem) :
     exact initSubs_leave_succeeds rest base r
 end
 
+/-! ### exactly the second parts keep their prior bytes under LEAVE_INTERNAL_BUFFERS_UNINITIALIZED -/
+
+theorem storeSlots_outside (base impl i : Nat) (hout : ¬ InRange base impl i) (l : List Slot)
+    (hl : ∀ s ∈ l, 8 ≤ s.off ∧ s.off + 8 ≤ impl) : ∀ m : Mem, storeSlots m base l i = m i := by
+  unfold storeSlots
+  induction l with
+  | nil => intro m; rfl
+  | cons s rest ih =>
+    intro m
+    simp only [List.foldl_cons]
+    rw [ih (fun t ht => hl t (List.mem_cons_of_mem _ ht))]
+    unfold storePtr
+    have := hl s List.mem_cons_self
+    have hn : ¬ (base + s.off ≤ i ∧ i < base + s.off + 8) := by
+      unfold InRange at hout
+      omega
+    simp [hn]
+
+theorem slots_wf (l : List Slot) (impl : Nat)
+    (h : l.all (fun s => decide (8 ≤ s.off ∧ s.off + 8 ≤ impl)) = true) :
+    ∀ s ∈ l, 8 ≤ s.off ∧ s.off + 8 ≤ impl := by
+  intro s hs
+  have := List.all_eq_true.mp h s hs
+  simpa using this
+
+mutual
+/-- `leave_uninit_keeps_second_part`: with LEAVE_INTERNAL_BUFFERS_UNINITIALIZED a (well-formed)
+object's bytes outside every first part — and all memory outside the object — are exactly the
+prior memory: this is the garbage a decoder must never read before writing. -/
+theorem leave_uninit_keeps_second_part (o : Obj) (hwf : o.wf = true) (base : Nat) (m r : Mem)
+    (h : initObj o base ⟨false, true⟩ m = .ok r) :
+    ∀ i, firstParts o base i = false → r i = m i := by
+  match o with
+  | .mk size impl ch vt subs =>
+    unfold Obj.wf at hwf
+    simp only [Bool.and_eq_true, decide_eq_true_eq] at hwf
+    obtain ⟨⟨⟨h1, hch⟩, hvt⟩, hs⟩ := hwf
+    unfold initObj prologue at h
+    simp only [Bool.false_eq_true, ↓reduceIte, Bool.not_true] at h
+    cases hsub : initSubs subs base ⟨false, true⟩ (storeSlots (zeroRange m base impl) base ch) with
+    | error e => rw [hsub] at h; simp at h
+    | ok m3 =>
+      rw [hsub] at h
+      simp only [Except.ok.injEq] at h
+      intro i hi
+      unfold firstParts at hi
+      simp only [Bool.or_eq_false_iff, decide_eq_false_iff_not] at hi
+      obtain ⟨hout, hsubs⟩ := hi
+      have hout' : ¬ InRange base impl i := hout
+      rw [← h, storeSlots_outside base impl i hout' vt (slots_wf vt impl hvt)]
+      have hm : storeMagic m3 base i = m3 i := by
+        unfold storeMagic
+        have : ¬ (base ≤ i ∧ i < base + 4) := by unfold InRange at hout'; omega
+        simp [this]
+      rw [hm, leave_uninit_keeps_second_part_subs subs impl size hs base _ m3 hsub i hsubs,
+        storeSlots_outside base impl i hout' ch (slots_wf ch impl hch)]
+      unfold zeroRange
+      simp [hout]
+theorem leave_uninit_keeps_second_part_subs (s : Subs) (lo hi : Nat) (hwf : s.wf lo hi = true)
+    (base : Nat) (m r : Mem) (h : initSubs s base ⟨false, true⟩ m = .ok r) :
+    ∀ i, firstPartsSubs s base i = false → r i = m i := by
+  match s with
+  | .nil =>
+    unfold initSubs at h
+    simp only [Except.ok.injEq] at h
+    intro i _; rw [h]
+  | .cons off o rest =>
+    unfold Subs.wf at hwf
+    simp only [Bool.and_eq_true, decide_eq_true_eq] at hwf
+    obtain ⟨⟨_, ho⟩, hr⟩ := hwf
+    unfold initSubs at h
+    cases h1 : initObj o (base + off) ⟨false, true⟩ m with
+    | error e => rw [h1] at h; simp at h
+    | ok m' =>
+      rw [h1] at h
+      simp only at h
+      intro i hi
+      unfold firstPartsSubs at hi
+      simp only [Bool.or_eq_false_iff] at hi
+      rw [leave_uninit_keeps_second_part_subs rest (off + o.size) _ hr base m' r h i hi.2,
+        leave_uninit_keeps_second_part o ho (base + off) m m' h1 i hi.1]
+end
+
 /-- The hypothesis "memory really is zero" of `init_already_zeroed_over_zeroed` cannot be
 dropped: ALREADY_ZEROED over memory whose magic bytes happen to be zero succeeds and leaves
 prior garbage INSIDE `private_impl` (the check is a plausibility test, as the C comment says). -/
